@@ -88,6 +88,10 @@ EXTRAS = [
     dict(frame_rate_numer=120000, frame_rate_denom=1001, profile=0, picture_bytes=48),
     dict(color_primaries_index=3, color_matrix_index=4, transfer_function_index=5),
     dict(luma_offset=256, luma_excursion=3504, color_diff_offset=2048, color_diff_excursion=3584, lossless=True),
+    # lossless configurations whose slices are NOT all the same size
+    dict(lossless=True, slices_x=3, slices_y=1),
+    dict(lossless=True, slices_x=5, slices_y=3, frame_width=24, frame_height=10, dwt_depth=1),
+    dict(lossless=True, slices_x=3, slices_y=2, frame_width=8, frame_height=6, wavelet_index=1, dwt_depth=2, color_diff_format_index=1),
     # ratios that equal a preset / the base default in value but are not in lowest terms
     dict(frame_rate_numer=50, frame_rate_denom=2),
     dict(pixel_aspect_ratio_numer=24, pixel_aspect_ratio_denom=22, frame_rate_numer=60000, frame_rate_denom=2002),
@@ -108,6 +112,40 @@ def decode(stream):
     f = io.BytesIO()
     autofill_and_serialise_stream(f, stream)
     return vc2run.validate(f.getvalue(), limits=False)
+
+
+def all_ones_problem(stream):
+    from vc2_conformance import bitstream as bs
+    from vc2_conformance.pseudocode.state import State
+
+    f = io.BytesIO()
+    bs.autofill_and_serialise_stream(f, stream)
+    with bs.Deserialiser(bs.BitstreamReader(io.BytesIO(f.getvalue()))) as des:
+        bs.parse_stream(des, State())
+    n_slices = 0
+    qindices = set()
+    for seq in des.context["sequences"]:
+        for du in seq["data_units"]:
+            td = None
+            if "picture_parse" in du:
+                td = du["picture_parse"]["wavelet_transform"]["transform_data"]
+            elif "fragment_parse" in du and "fragment_data" in du["fragment_parse"]:
+                td = du["fragment_parse"]["fragment_data"]
+            if td is None:
+                continue
+            for sl in td.get("hq_slices", []):
+                n_slices += 1
+                qindices.add(sl["qindex"])
+                for c in ("y", "c1", "c2"):
+                    vals = sl["%s_transform" % c]
+                    bad = [i for i, v in enumerate(vals) if v != 1]
+                    if bad:
+                        return "slice %d: %d of %d %s coefficients are not 1 (first at %d: %r)" % (n_slices - 1, len(bad), len(vals), c, bad[0], vals[bad[0]])
+    if n_slices == 0:
+        return "no high-quality slices found"
+    if len(qindices) != 1 or 0 in qindices:
+        return "qindex values %r" % sorted(qindices)
+    return None
 
 
 def strip(pic):
@@ -211,6 +249,13 @@ def check_config(cfg):
                     if g != plain[j % len(plain)]:
                         problems.append("%s: picture %d differs from the plain encoding of the same source" % (tc.name, j))
                         break
+        if fam == "lossless_quantization":
+            # documented content: a non-zero qindex and EVERY transform coefficient of every
+            # slice coded as 1 (read back through the deserialiser, whose coefficient counts come
+            # from the slice geometry, not from the generator's lists)
+            p = all_ones_problem(tc.value)
+            if p:
+                problems.append("%s: %s" % (tc.name, p))
         if fam == "picture_numbers":
             want = PICTURE_NUMBERS.get(tc.subcase_name)
             got = [p[0]["pic_num"] for p in v.pictures]
